@@ -208,6 +208,7 @@ EXPORT char *_stpncpy_s_chk(char *restrict dest, rsize_t dmax,
                  * Copying truncated to slen chars.  Note that the TR says to
                  * copy slen chars plus the null char.  We null the slack.
                  */
+                *dest = '\0';
                 goto eok;
             }
 
@@ -215,15 +216,9 @@ EXPORT char *_stpncpy_s_chk(char *restrict dest, rsize_t dmax,
             if (*dest == '\0')
                 goto eok;
             dmax--;
-            slen++;
+            slen--;
             dest++;
             src++;
-            if (unlikely(slen >= srcbos)) {
-                invoke_safe_str_constraint_handler("stpncpy_s: src unterminated",
-                                                   (void *)src, ESUNTERM);
-                *errp = RCNEGATE(ESUNTERM);
-                return NULL;
-            }
         }
     } else {
         overlap_bumper = dest;
@@ -243,6 +238,7 @@ EXPORT char *_stpncpy_s_chk(char *restrict dest, rsize_t dmax,
                  * Copying truncated to slen chars.  Note that the TR says to
                  * copy slen chars plus the null char.  We null the slack.
                  */
+                *dest = '\0';
                 goto eok;
             }
 
@@ -267,15 +263,9 @@ EXPORT char *_stpncpy_s_chk(char *restrict dest, rsize_t dmax,
             }
 
             dmax--;
-            slen++;
+            slen--;
             dest++;
             src++;
-            if (unlikely(slen >= srcbos)) {
-                invoke_safe_str_constraint_handler("stpncpy_s: src unterminated",
-                                                   (void *)src, ESUNTERM);
-                *errp = RCNEGATE(ESUNTERM);
-                return NULL;
-            }
         }
     }
 
